@@ -45,6 +45,22 @@ func (t *Transpose) Init(n *onnx.NodeProto) error {
 
 // Apply applies the transpose operator.
 func (t *Transpose) Apply(inputs []tensor.Tensor) ([]tensor.Tensor, error) {
+	// The perm attribute must be a permutation of the axes of the input tensor. Without
+	// perm, the axes are reversed.
+	seen := make([]bool, len(inputs[0].Shape()))
+
+	if len(t.perm) != 0 && len(t.perm) != len(seen) {
+		return nil, ops.ErrInvalidInput("perm must have an entry for every axis of the input", t)
+	}
+
+	for _, axis := range t.perm {
+		if axis < 0 || axis >= len(seen) || seen[axis] {
+			return nil, ops.ErrInvalidInput("perm must be a permutation of the axes of the input", t)
+		}
+
+		seen[axis] = true
+	}
+
 	out, err := tensor.Transpose(inputs[0], t.perm...)
 	if err != nil {
 		return nil, err
